@@ -209,7 +209,7 @@ def main(ctx):
                 "case is judged only on inputs the reference interpreter "
                 "accepts and on which it agrees with gfortran")
     nb = 32 if ctx.quick else 160
-    cnt = 10 if ctx.quick else 32
+    cnt = 8 if ctx.quick else 32
     jobs = [{"seed": ctx.rng("b", i).random(), "count": cnt,
              "ninputs": 5 if ctx.quick else 8} for i in range(nb)]
     for res in ctx.pmap("vf.checks.c01", "batch", jobs, timeout=3000):
